@@ -43,7 +43,7 @@ pub fn h_dec_derived<T: Decode + Spec + DerivedInfo, const L: usize>() {
 		assert!(v.skipped_fields_default(), "a skipped field was not filled with Default");
 		assert!(!v.in_skipped_variant(), "decoder produced a skipped variant");
 	}
-	kani::cover!(r.is_err(), "reach: rejected");
+	kani::cover!(r.is_err(), "info: rejected");
 	core::mem::forget((r, m));
 }
 
